@@ -234,7 +234,127 @@ pub fn decision_hash(out: &Outcome) -> u64 {
     h
 }
 
+/// Complete sub-space: 2-3 files placed in every way into the directories {c, c/s, c/s/t, c/u}
+/// (two of the files share a bare name when they are in different directories), under every
+/// listing order of every directory, all default patterns selected.
+fn exhaustive_small_trees() -> ScnResult {
+    let mut r = ScnResult::default();
+    let dirs = ["/w/c", "/w/c/s", "/w/c/s/t", "/w/c/u"];
+    let texts = [
+        "pragma solidity ^0.8.16;\n\ncontract A {\n    uint256 private v;\n    function f() public {\n    }\n}\n",
+        "pragma solidity ^0.8.16;\n\n\ncontract B {\n\n    uint256 private w;\n    function g() public {\n    }\n    function h(address t, address to) public {\n        IERC20(t).transfer(to, 1);\n    }\n}\n",
+        "pragma solidity 0.8.3;\ncontract C {\n    function k() public {\n    }\n    uint256 private z;\n}\n",
+    ];
+    let vul = crate::pats::defaults(Cat::Vul);
+    let opt = crate::pats::defaults(Cat::Opt);
+    let qa = crate::pats::defaults(Cat::Qa);
+    for n_files in 2..=3usize {
+        let combos = 4usize.pow(n_files as u32);
+        for combo in 0..combos {
+            let mut world = World::new("/w");
+            world.mkdir_p("/w/c");
+            let mut ok = true;
+            let mut c = combo;
+            for i in 0..n_files {
+                let d = dirs[c % 4];
+                c /= 4;
+                let name = if i == 2 { "a.sol" } else if i == 0 { "a.sol" } else { "b.sol" };
+                let p = format!("{}/{}", d, name);
+                if world.nodes.contains_key(&p) {
+                    ok = false;
+                    break;
+                }
+                world.put_file(&p, texts[i].as_bytes().to_vec(), crate::world::Fault::None);
+            }
+            if !ok {
+                continue;
+            }
+            // all listing orders: one permutation index per directory with >= 2 entries
+            let listed: Vec<(String, Vec<String>)> = world
+                .dirs()
+                .into_iter()
+                .filter(|d| d.starts_with("/w/c"))
+                .map(|d| {
+                    let kids: Vec<String> = world.children(&d).into_iter().map(|k| crate::world::join(&d, &k)).collect();
+                    (d, kids)
+                })
+                .filter(|(_, k)| k.len() >= 2)
+                .collect();
+            let mut perms_per_dir: Vec<Vec<Vec<usize>>> = vec![];
+            for (_, kids) in &listed {
+                let mut out = vec![];
+                let mut idx: Vec<usize> = (0..kids.len()).collect();
+                heap_permute(&mut idx, 0, &mut out);
+                perms_per_dir.push(out);
+            }
+            let total: usize = perms_per_dir.iter().map(|p| p.len()).product::<usize>().max(1);
+            for t in 0..total {
+                let mut pol = crate::simenv::OrderPolicy::default();
+                let mut x = t;
+                for (di, (_, kids)) in listed.iter().enumerate() {
+                    let perm = &perms_per_dir[di][x % perms_per_dir[di].len()];
+                    x /= perms_per_dir[di].len();
+                    for (pos, ki) in perm.iter().enumerate() {
+                        pol.ranks.insert(kids[*ki].clone(), pos as u64);
+                    }
+                }
+                let spec = RunSpec {
+                    world: world.clone(),
+                    schedule: crate::simenv::Schedule {
+                        listing: pol,
+                        iteration: Default::default(),
+                    },
+                    mode: Mode::Lib {
+                        dir: "./c".into(),
+                        vul: vul.clone(),
+                        opt: opt.clone(),
+                        qa: qa.clone(),
+                    },
+                    render: false,
+                };
+                let out = run(&spec);
+                let j = judge(&spec, &out);
+                r.evaluations += 1;
+                r.steps += out.journal.len() as u64 + 3;
+                r.count("exhaustive_small_tree_cases", 1);
+                r.interleavings.push(decision_hash(&out));
+                if j.nontrivial {
+                    r.nontrivial.push(mix(hash_str(5, &spec.world.to_json().to_string()) ^ decision_hash(&out)));
+                }
+                if let Some(v) = j.violation {
+                    if r.violations.len() < 4 {
+                        r.violations.push(v);
+                    }
+                }
+                if j.unjudgeable.is_some() {
+                    r.harness_error = Some("a text of the exhaustive C03 sub-space is not analysable".into());
+                    return r;
+                }
+            }
+        }
+    }
+    r
+}
+
+fn heap_permute(v: &mut Vec<usize>, k: usize, out: &mut Vec<Vec<usize>>) {
+    if k == v.len() {
+        out.push(v.clone());
+        return;
+    }
+    for i in k..v.len() {
+        v.swap(k, i);
+        heap_permute(v, k + 1, out);
+        v.swap(k, i);
+    }
+}
+
 impl Property for C03 {
+    fn prelude(&self, _ctx: &Ctx, _screen: &mut Screen) -> Option<ScnResult> {
+        Some(exhaustive_small_trees())
+    }
+    fn exhaustive_note(&self) -> Option<String> {
+        Some("one sub-space is enumerated completely: 2-3 files (two sharing a bare name) placed in every way into {c, c/s, c/s/t, c/u}, under every listing order of every directory, all default patterns selected; everything else is seeded sampling".into())
+    }
     fn id(&self) -> &'static str {
         "C03"
     }
